@@ -86,6 +86,7 @@ func genC16(c *Ctx) {
 			c14Guard(c, "C16-harness-panic", "c16PCKS", func() { c16PCKS(c, set, 2, set.maxQ()-1, set.maxQ(), true, 3.2) })
 		}
 		c14Guard(c, "C16-harness-panic", "c16LevelMismatch", func() { c16LevelMismatch(c, set) })
+		c14Guard(c, "C16-harness-panic", "c16ScratchRLWE", func() { c16ScratchRLWE(c, set) })
 	}
 	c16BGV(c, ns)
 	c16CKKS(c, ns)
@@ -326,6 +327,15 @@ func c16CKS(c *Ctx, set c14Set, n, ctLvl, shareLvl int, ntt bool, sigma float64)
 		return ""
 	})
 	c.Probe("cks_decrypts", label+fmt.Sprintf(" receivers=%d", len(others)+2)+" bound="+bound.String(), "C16-cks", detail)
+	ctB := c14RandCt(c, params, 1, ctLvl)
+	ctB.IsNTT = ntt
+	c16History(c, "KeySwitchProtocol.GenShare", label, func() string { return c16PolySnap(shares[0].Value) }, func() {
+		o := protos[0].AllocateShare(shareLvl)
+		protos[0].GenShare(in.sk[0], out.sk[0], ctB, &o)
+	})
+	c16History(c, "KeySwitchProtocol.KeySwitch", label, func() string { return c16CtSnap(res) }, func() {
+		protos[0].KeySwitch(ctB, agg, c14RandCt(c, params, 1, ctLvl))
+	})
 }
 
 // ---------------------------------------------------------------------------------------------
@@ -472,7 +482,8 @@ func c16PCKS(c *Ctx, set c14Set, n, ctLvl, shareLvl int, ntt bool, sigma float64
 
 	// phase(res, skOut) − phase(ct, Σ s_i) = Σ (e_i + phase(z_i, skOut)); |phase(z)| ≤ (d·B + B + d·B)/1 + 1 + d
 	d, B := int64(set.n), c14B(params)
-	bound := big.NewInt(int64(n) * (c16Bound(flood) + 2*d*B + B + d + 2))
+	h := d * c14Bs(params)
+	bound := big.NewInt(int64(n) * (c16Bound(flood) + 2*h*B + B + h + 2))
 	label := fmt.Sprintf("set=%s N=%d ctLvl=%d shareLvl=%d ntt=%t sigma=%g bound=%s", set.name, n, ctLvl, shareLvl, ntt, sigma, bound)
 	detail := Try(func() string {
 		if outTok == "panic" {
@@ -501,6 +512,15 @@ func c16PCKS(c *Ctx, set c14Set, n, ctLvl, shareLvl int, ntt bool, sigma float64
 		return ""
 	})
 	c.Probe("pcks_decrypts", label+fmt.Sprintf(" receivers=%d", len(others)+2), "C16-pcks", detail)
+	ctB := c14RandCt(c, params, 1, ctLvl)
+	ctB.IsNTT = ntt
+	c16History(c, "PublicKeySwitchProtocol.GenShare", label, func() string { return c16PolySnap(shares[0].Value[0]) + c16PolySnap(shares[0].Value[1]) }, func() {
+		o := protos[0].AllocateShare(shareLvl)
+		protos[0].GenShare(in.sk[0], pkOut, ctB, &o)
+	})
+	c16History(c, "PublicKeySwitchProtocol.KeySwitch", label, func() string { return c16CtSnap(res) }, func() {
+		protos[0].KeySwitch(ctB, agg, c14RandCt(c, params, 1, ctLvl))
+	})
 }
 
 // ---------------------------------------------------------------------------------------------
@@ -625,6 +645,31 @@ func c16OtherLevel(maxQ, lvl int) int {
 		return lvl + 1
 	}
 	return -1
+}
+
+// c16History: an output produced by an earlier call must not change (bit-exact, incl. the storage of big integers)
+// when the same protocol instance is used again.
+func c16History(c *Ctx, fn, label string, snap func() string, again func()) {
+	before := snap()
+	detail := Try(func() string {
+		again()
+		if snap() != before {
+			return "earlier_output_changed_by_a_later_call_on_the_same_instance"
+		}
+		return ""
+	})
+	c.Probe("output_survives_next_call", fn+" "+label, "C16/"+fn+"/output-aliases-internal-state", detail)
+}
+
+// c16ScratchRLWE: ShallowCopy of the key-switching protocols shares no scratch buffer with the original
+func c16ScratchRLWE(c *Ctx, set c14Set) {
+	flood := ring.DiscreteGaussian{Sigma: 3.2, Bound: 19.2}
+	cks, _ := multiparty.NewKeySwitchProtocol(set.params, flood)
+	c14SharedScratch(c, "C16", "KeySwitchProtocol", cks, cks.ShallowCopy())
+	pcks, _ := multiparty.NewPublicKeySwitchProtocol(set.params, flood)
+	pc := pcks.ShallowCopy()
+	c14SharedScratch(c, "C16", "PublicKeySwitchProtocol", pcks, pc)
+	c14SharedScratch(c, "C16", "PublicKeySwitchProtocol(copy_of_copy)", pc, pc.ShallowCopy())
 }
 
 func c16PRNG(key []byte) *sampling.KeyedPRNG {
